@@ -1,4 +1,5 @@
 import PebblesVerif.Props.C17
+import PebblesVerif.Props.C17Flat
 open PebblesVerif.SubEntry
 #print axioms C17_frames_prefix
 #print axioms C17_frames
@@ -7,3 +8,7 @@ open PebblesVerif.SubEntry
 #print axioms C17_stitch
 #print axioms C17_stitch_leaf
 #print axioms C17_errors_forwarded_partial
+#print axioms PebblesVerif.C17_flat_event_stitched
+#print axioms PebblesVerif.C17_flat_event_stitched_instance
+#print axioms PebblesVerif.C17_flat_history_stitched
+#print axioms PebblesVerif.C17_flat_history_stitched_instance
